@@ -144,11 +144,23 @@ def reset_event(mesh, lay, with_nbrs=True):
 
 
 def random_history(lay, rng, steps, bias_space=0.5, p_both=0.1, max_leaves=120, with_nbrs=True,
-                   compound=0.0):
-    """One trace: reset + `steps` random operations on a fresh real mesh."""
+                   compound=0.0, companions=0.0):
+    """One trace: reset + `steps` random operations on a fresh real mesh.
+    companions: probability per step of constructing another mesh object and refining it a little in between (meshes of
+    one process are independent objects: what happens to one must not show in the bookkeeping of another)."""
+    import contextlib
+    import io
     mesh = lay.new_mesh()
     events = [reset_event(mesh, lay, with_nbrs)]
+    others = []
     for _ in range(steps):
+        if companions and rng.random() < companions:
+            with contextlib.redirect_stdout(io.StringIO()):
+                if not others or rng.random() < 0.5:
+                    others.append(lay.new_mesh())
+                o = rng.choice(others)
+                if len(o.leaf_elements) < 40:
+                    o.refine_axis(rng.choice(list(o.leaf_elements)), rng.randrange(2))
         order = [tuple(a) for a in events[-1]["post"]] if events[-1]["exc"] == "" else None
         if order is None or len(order) > max_leaves:
             break
